@@ -120,6 +120,22 @@ def run_history(hist, SPEC):
         for nm in st:
             if nm in back and (back[nm].source != st[nm].source or back[nm].scope != st[nm].scope):
                 return dict(step='json', op=[str(sc), nm], problem='JSON round trip changes source/scope of %s' % nm)
+    # C: DESCRIBE text (CONFIGURE statements): every stored scalar setting of a scope is written, once, as a SET of that scope -- a stored value that happens to
+    #    equal the default still masks the less specific scopes, so it must be written too (the value syntax itself needs the parser and is not read back here)
+    import re as _re
+    for sc, st in stores.items():
+        try: text = ops.to_edgeql(SPEC, st, with_secrets=True)
+        except Exception as e:
+            if any(isinstance(st[nm].value, statypes.ConfigMemory) for nm in st if nm in SPEC): continue      # (ConfigMemory has no EdgeQL constant form: a limitation on every tree)
+            return dict(step='describe', op=[str(sc)], problem='to_edgeql raised %r' % (e,))
+        written = _re.findall(r'^CONFIGURE ([A-Z ]+?) SET (\w+) :=', text, _re.M)
+        want = sorted(nm for nm in st if nm in SPEC and not isinstance(SPEC[nm].type, ctypes.ConfigTypeSpec))
+        got = sorted(nm for _, nm in written)
+        if got != want:
+            return dict(step='describe', op=[str(sc)], problem='the CONFIGURE statements for scope %s set %r, the stored configuration defines %r' % (sc, got, want))
+        for scope_txt, nm in written:
+            if scope_txt != st[nm].scope.to_edgeql():
+                return dict(step='describe', op=[str(sc), nm], problem='setting %s of scope %s is described as CONFIGURE %s' % (nm, sc, scope_txt))
     return None
 
 def gen_step(rnd):
